@@ -15,6 +15,8 @@ A *letter* is '<read class>[.<header class>]':
                 W2/W3 second / third whitelist barcode (other cells; long per-cell word only)
                 Q<p> W with every quality character = phred p (0..93)
                 X1.. strategy specific content classes (poly-T, TSO oligo absent, VASA barcode, ...)
+                P barcode mate ends exactly behind the barcode+UMI prefix (the demultiplexed read is empty)
+                L W with all bases in lower case
  header classes (none) Illumina 11 fields, known index      .7 Illumina 7 fields
                 .0 Illumina 10 fields ("1:N:0::")             .s already demultiplexed "@Is:...;CX:..."
                 .d 3-DEC "@Cluster_s_<lane>_<tile>_<n>"       .x Illumina, index not in the index list
@@ -246,7 +248,9 @@ class Alphabet:
             base += ['T', 'S', 'E', 'N']
             if 'B' in self.bc:
                 base.append('B')
+            base += ['P', 'L']
             base += sorted(self.extra)
+        self.base_letters = list(base)
         out = list(base)
         for h in HEADER_CLASSES[1:5]:
             out.append('W' + h)
@@ -298,7 +302,7 @@ class Alphabet:
             r2 = ins2
             if rc in ('W', 'W2', 'W3', 'M', 'U', 'B'):
                 pre = self._prefix(self.bc[rc], k)
-            elif rc in ('T', 'S', 'E'):
+            elif rc in ('T', 'S', 'E', 'P', 'L'):
                 pre = self._prefix(self.bc['W'], k)
             elif rc == 'N':
                 pre = self._prefix(self.bc['W'], k, n_in_umi=True)
@@ -336,12 +340,16 @@ class Alphabet:
                 bm = bm[:s + l // 2]
             elif rc == 'S':
                 bm = bm[:2]
+            elif rc == 'P':
+                bm = bm[:len(pre)]
             if mate == 0:
                 s1, s2 = bm, r2
             else:
                 s1, s2 = ins1, bm
             if rc == 'E':
                 s1, s2 = '', ''
+            elif rc == 'L':
+                s1, s2 = s1.lower(), s2.lower()
         if phred is None:
             q1, q2 = qual_for(0, len(s1), k), qual_for(1, len(s2), k)
         else:
@@ -350,5 +358,10 @@ class Alphabet:
                 (header(h, k, 2, self.unknown_index), s2, q2))
 
 
-def fastq_text(records):
-    return ''.join(f'{h}\n{s}\n+\n{q}\n' for h, s, q in records)
+def fastq_text(records, plus_header=False, final_newline=True):
+    """FASTQ text of the records.  plus_header: the third line repeats the read name ('+name', legal FASTQ);
+    final_newline=False: the last record is not newline terminated (legal, what many writers leave)"""
+    t = ''.join(f'{h}\n{s}\n+{h[1:] if plus_header else ""}\n{q}\n' for h, s, q in records)
+    if not final_newline and t.endswith('\n'):
+        t = t[:-1]
+    return t
